@@ -5,7 +5,7 @@ import DS.Gen.SrcReaders
 # Source tie for C13 (readers): the control-flow models ARE the transliterated `parseLines`
 
 `DS/Gen/SrcReaders.lean` is regenerated on every run by `translate/src_readers.py` from the current
-`parsers/p_xyz.py` and `parsers/p_rawxyz.py`: the body of `parseLines`, statement by statement, in the vocabulary
+`parsers/p_xyz.py`, `parsers/p_rawxyz.py`, `parsers/p_discus.py` and `parsers/p_pdffit.py`: the body of `parseLines`, statement by statement, in the vocabulary
 of `DS/Model/Parsers.lean` (every loop and every `try` body is its own definition; the handler tuples are the ones
 written at that `try`).  The theorems below prove, for every abstract document, that the hand-written models the C13
 theorems speak about (`Parsers.xyzRun`, `Parsers.rawxyzRun` under the generated handler configuration
@@ -17,7 +17,12 @@ theorems speak about (`Parsers.xyzRun`, `Parsers.rawxyzRun` under the generated 
 * `xyz_try1_eq`                         first `try` body of `P_xyz` = `xyzHead` (and `start += 2`);
 * `xyz_for2_eq`, `rawxyz_for2_eq`       the record loops = `xyzRecords` / `rawRecords` (induction);
 * `while_eq`                            the trailing-blank loop = `stripTrailing` (induction on the fuel);
-* `whileDec_unfold`                     the fuel `v - lo` makes `whileDec` satisfy the equation of the `while` loop.
+* `whileDec_unfold`                     the fuel `v - lo` makes `whileDec` satisfy the equation of the `while` loop;
+* `parseDiscus_eq` (and `discusRun_eq`, `discusBody_eq`, `discusHeader_eq`, `discusAtoms_eq`, `discus_parse_*_eq`)
+                                        the same tie for `P_discus.parseLines` of `parsers/p_discus.py` (`Parsers.parseDiscus` under
+                                        `Gen.cfg_discus`), see the section `P_discus.parseLines`;
+* `parsePdffit_eq` (and `pdffitRun_eq`, `pdffitBody_eq`, `pdffitHeader_eq`, `pdffitAtoms_eq`, `pdffit_parse_shape_eq`)
+                                        the same for `P_pdffit.parseLines` of `parsers/p_pdffit.py`, see the last section.
 -/
 namespace DS.Props.SrcReaders
 open DS DS.Parsers DS.Src.Readers
@@ -321,5 +326,335 @@ example : toOutcome (xyz_parseLines { lines := [[{ int := some 1, flt := true, c
 example : toOutcome (rawxyz_parseLines { lines := [[{ flt := true }, { flt := true }, { flt := true }], []] }) = .ok := by decide
 example : toOutcome (rawxyz_parseLines { lines := [[{}, { flt := true }, { flt := true }, { flt := true }],
     [{}, { flt := true }, {}, { flt := true }]] }) = .err .SFE := by decide
+
+/-! ## `P_discus.parseLines`
+
+`discus_parseLines` is the transliteration of the parser object: `discus__parse_*` are the record helper methods, the two
+`for self.line in ilines` loops over the shared iterator are the recursions `discus_parseLines_for1/2`, the dispatch
+dictionary `record_parsers` is the `match` on the keyword of the first word (default `_parse_unknown_record`).
+
+* `parseDiscus_eq`, `discusRun_eq`      the tie itself (outcome / monad `M`);
+* `discusBody_eq`                       body of the outer `try` = `discusBody`;
+* `discusHeader_eq`, `discusAtoms_eq`   the two loops (induction over the remaining lines);
+* `discus_parse_*_eq`                   the record helpers = the arms of `discusHeader` / the step of `discusAtoms`;
+* `discus_handler_eq`, `discus_cell_handler_eq`   handler tuples, `rfl`.
+-/
+
+
+/-- the outer handler tuple of the generated configuration is the tuple written at the `try` of `P_discus.parseLines` -/
+theorem discus_handler_eq : Gen.cfg_discus.H = discus_parseLines_try1_handler := rfl
+/-- the inner handler tuple (`_parse_cell`, around `setLatPar`) likewise -/
+theorem discus_cell_handler_eq : Gen.cfg_discus.Hcell = discus__parse_cell_try1_handler := rfl
+
+/-! ### record helpers of `P_discus` = the arms of `discusHeader` -/
+
+theorem discus_parse_cell_eq (l : Line) (ws : List Tok) (st : DState) (n : Nat) :
+    discus__parse_cell l ws st n
+      = (floats ((l.cwords.drop 1).take 6) >>= fun _ => tryExcept Gen.cfg_discus.Hcell l.lat.run >>= fun _ =>
+          Except.ok ({ st with cellRead := true }, n)) := by
+  simp [discus__parse_cell, discus_cell_handler_eq, pure_eq, List.drop_take]
+
+theorem discus_parse_format_eq (l : Line) (ws : List Tok) (st : DState) (n : Nat) :
+    discus__parse_format l ws st n
+      = (idx ws 1 >>= fun w1 => if w1.kw = .pdffit then raise .SFE else Except.ok (st, n)) := by
+  simp only [discus__parse_format, pure_eq]
+  cases idx ws 1 with
+  | error k => simp [err_bind]
+  | ok w1 => by_cases h : w1.kw = .pdffit <;> simp [ok_bind, h, raise, err_bind]
+
+theorem discus_parse_ni_eq (l : Line) (w0 : Tok) (ws : List Tok) (st : DState) (n : Nat) :
+    discus__parse_not_implemented l (w0 :: ws) st n = raise .NotImpl := by
+  simp [discus__parse_not_implemented, idx, pure_eq, ok_bind]
+
+theorem discus_parse_ncell_eq (l : Line) (ws : List Tok) (st : DState) (n : Nat) :
+    discus__parse_ncell l ws st n
+      = (ints ((l.cwords.drop 1).take 4) >>= fun v => Except.ok ({ st with ncell := v, ncellRead := true }, n)) := by
+  simp [discus__parse_ncell, pure_eq, List.drop_take]
+
+theorem discus_parse_spcgr_eq (l : Line) (ws : List Tok) (st : DState) (n : Nat) :
+    discus__parse_spcgr l ws st n = Except.ok (st, n) := rfl
+theorem discus_parse_title_eq (l : Line) (ws : List Tok) (st : DState) (n : Nat) :
+    discus__parse_title l ws st n = Except.ok (st, n) := rfl
+theorem discus_parse_unknown_eq (l : Line) (ws : List Tok) (st : DState) (n : Nat) :
+    discus__parse_unknown_record l ws st n = Except.ok (st, n) := rfl
+
+theorem discus_parse_shape_eq (l : Line) (st : DState) (n : Nat) :
+    discus__parse_shape l l.words st n = (discusShape l >>= fun _ => Except.ok (st, n)) := by
+  simp only [discus__parse_shape, discusShape, floatAt, pure_eq]
+  cases h1 : idx l.cwords 1 with
+  | error k => simp [err_bind]
+  | ok t =>
+    simp only [ok_bind]
+    by_cases hs : t.kw = .sphere
+    · simp [hs]
+    · by_cases hc : t.kw = .stepcut
+      · simp [hc]
+      · simp [hs, hc, raise, err_bind]
+
+theorem discus_parse_atom_eq (l : Line) (w0 : Tok) (ws : List Tok) (st : DState) (n : Nat) :
+    discus__parse_atom l (w0 :: ws) st n
+      = (floats (((w0 :: ws).drop 1).take 3) >>= fun _ => floatAt (w0 :: ws) 4 >>= fun _ => Except.ok (st, n + 1)) := by
+  simp [discus__parse_atom, floatAt, idx, pure_eq, ok_bind, List.drop_take]
+
+/-- header loop (`for self.line in ilines: … break … else: raise`): the recursion over the shared iterator with the
+dispatch through `record_parsers` is `discusHeader`; the atom counter is untouched -/
+theorem discusHeader_eq (ls : List Line) (st : DState) (n : Nat) :
+    discus_parseLines_for1 ls st n = (discusHeader Gen.cfg_discus ls st >>= fun p => Except.ok (p.1, n, p.2)) := by
+  induction ls generalizing st with
+  | nil => simp [discus_parseLines_for1, discusHeader, raise, err_bind]
+  | cons l rest ih =>
+    unfold discus_parseLines_for1 discusHeader
+    cases hw : l.words with
+    | nil => simp [ih, pure_eq, ok_bind]
+    | cons w0 ws =>
+      have hsh := discus_parse_shape_eq l st n
+      rw [hw] at hsh
+      cases hh : w0.hash
+      · simp only [idx, hh, pure_eq]
+        cases hk : w0.kw <;>
+          simp [hk, hh, idx, discus_parse_cell_eq, discus_parse_format_eq, discus_parse_ni_eq, discus_parse_ncell_eq, discus_parse_spcgr_eq, discus_parse_title_eq,
+            discus_parse_unknown_eq, hsh, ih, pure_eq, ok_bind, raise, err_bind]
+        cases ws[0]? with
+        | none => simp [err_bind]
+        | some x => by_cases h : x.kw = .pdffit <;> simp [h, ok_bind, err_bind, ih]
+      · simp [idx, hh, ih, pure_eq, ok_bind]
+
+/-- atom loop over the rest of the iterator = `discusAtoms`; the parser state is untouched -/
+theorem discusAtoms_eq (ls : List Line) (st : DState) (n : Nat) :
+    discus_parseLines_for2 ls st n = (discusAtoms ls n >>= fun n' => Except.ok (st, n')) := by
+  induction ls generalizing n with
+  | nil => simp [discus_parseLines_for2, discusAtoms, pure_eq, ok_bind]
+  | cons l rest ih =>
+    unfold discus_parseLines_for2 discusAtoms
+    cases hw : l.cwords with
+    | nil => simp [ih, pure_eq, ok_bind]
+    | cons w0 ws =>
+      cases hh : w0.hash
+      · simp [idx, hh, pure_eq, ok_bind, discus_parse_atom_eq, ih]
+      · simp [idx, hh, ih, pure_eq, ok_bind]
+
+/-- the body of the outer `try` -/
+theorem discusBody_eq (d : DiscusDoc) : discusBody Gen.cfg_discus d = discus_parseLines_try1 d := by
+  unfold discusBody discus_parseLines_try1
+  simp only [discusHeader_eq, discusAtoms_eq, pure_eq]
+  have hr : Gen.cfg_discus.reduceInit = true := rfl
+  rw [hr]
+  cases hx : discusHeader Gen.cfg_discus (stripTrailing Line.blank d.lines) { } with
+  | error k => simp [err_bind]
+  | ok p =>
+    obtain ⟨st, rest⟩ := p
+    simp only [ok_bind]
+    cases hc : st.cellRead
+    · simp [raise, err_bind]
+    · simp only [Bool.not_true, Bool.false_eq_true, if_false, not_true_eq_false]
+      cases ha : discusAtoms rest 0 with
+      | error k => simp [err_bind]
+      | ok n =>
+        simp only [ok_bind]
+        cases hp : pyProduct true st.ncell with
+        | error k => simp [err_bind]
+        | ok e =>
+          simp only [ok_bind]
+          by_cases h1 : st.ncellRead = true ∧ e ≠ (n : Int)
+          · simp [h1, raise, err_bind]
+          · by_cases h2 : List.take 3 st.ncell ≠ [1, 1, 1]
+            · simp only [h1, h2, if_false, superCell]
+              cases superStep 6 st.ncell 0 <;> cases superStep 6 st.ncell 1 <;> cases superStep 6 st.ncell 2 <;>
+                cases d.superLat.run <;> simp [err_bind, ok_bind]
+            · simp [h1, h2]
+
+/-- the same in the monad `M` (before `toOutcome`) -/
+theorem discusRun_eq (d : DiscusDoc) : tryExcept Gen.cfg_discus.H (discusBody Gen.cfg_discus d) = discus_parseLines d := by
+  rw [discusBody_eq, discus_handler_eq]
+  unfold discus_parseLines
+  cases tryExcept discus_parseLines_try1_handler (discus_parseLines_try1 d) <;> simp [err_bind, ok_bind, pure_eq]
+
+/-- **the tie for DISCUS** -/
+theorem parseDiscus_eq (d : DiscusDoc) : parseDiscus Gen.cfg_discus d = toOutcome (discus_parseLines d) := by
+  unfold parseDiscus; rw [discusRun_eq]
+
+/-! non-vacuity for DISCUS: accepted, rejected, converted, and not-implemented outcomes are reached -/
+
+example : toOutcome (discus_parseLines { lines := [
+    { words := [{ kw := .cell }, { flt := true }, { flt := true }, { flt := true }, { flt := true }, { flt := true }, { flt := true }],
+      cwords := [{ kw := .cell }, { flt := true }, { flt := true }, { flt := true }, { flt := true }, { flt := true }, { flt := true }] },
+    { words := [{ kw := .atoms }], cwords := [{ kw := .atoms }] },
+    { words := [{}, { flt := true }, { flt := true }, { flt := true }, { flt := true }],
+      cwords := [{}, { flt := true }, { flt := true }, { flt := true }, { flt := true }] }] }) = .ok := by decide
+example : toOutcome (discus_parseLines { lines := [
+    { words := [{ kw := .cell }, { flt := true }], cwords := [{ kw := .cell }, { flt := true }] }] }) = .err .SFE := by decide
+example : toOutcome (discus_parseLines { lines := [
+    { words := [{ kw := .cell }, { flt := true }], cwords := [{ kw := .cell }, { flt := true }], lat := .zeroDiv },
+    { words := [{ kw := .atoms }], cwords := [{ kw := .atoms }] }] }) = .err .SFE := by decide
+example : toOutcome (discus_parseLines { lines := [
+    { words := [{ kw := .cell }], cwords := [{ kw := .cell }] },
+    { words := [{ kw := .atoms }], cwords := [{ kw := .atoms }] },
+    { words := [{}, { flt := true }], cwords := [{}, { flt := true }] }] }) = .err .SFE := by decide
+example : toOutcome (discus_parseLines { lines := [
+    { words := [{ kw := .molecule }], cwords := [{ kw := .molecule }] }] }) = .err .NotImpl := by decide
+
+/-! ## `P_pdffit.parseLines`
+
+* `parsePdffit_eq`, `pdffitRun_eq`      the tie itself (outcome / monad `M`);
+* `pdffitBody_eq`                       body of the `try` = `pdffitBody`;
+* `pdffitHeader_eq`, `pdffitAtoms_eq`   the two loops over the shared iterator (induction over the lines / the fuel);
+* `pdffit_parse_shape_eq`, `pdffit_handler_eq`   the helper and the handler tuple;
+* `pdffitAtoms_fuel`, `pdffitAtoms_fuel_ge`, `pdffit_for2_fuel`   more fuel than remaining lines changes nothing.
+-/
+
+
+/-- the handler tuple of the generated configuration is the tuple written at the `try` of `P_pdffit.parseLines` -/
+theorem pdffit_handler_eq : Gen.cfg_pdffit.H = pdffit_parseLines_try1_handler := rfl
+
+/-- `P_pdffit._parse_shape(line)` = `pdffitShape` -/
+theorem pdffit_parse_shape_eq (l : Line) (st : PState) (n : Nat) :
+    pdffit__parse_shape l st n = (pdffitShape l >>= fun _ => Except.ok (st, n)) := by
+  simp only [pdffit__parse_shape, pdffitShape, floatAt, pure_eq]
+  cases h1 : idx l.cwords 1 with
+  | error k => simp [err_bind]
+  | ok t =>
+    simp only [ok_bind]
+    by_cases hs : t.kw = .sphere
+    · simp [hs]
+    · by_cases hc : t.kw = .stepcut
+      · simp [hc]
+      · simp [hs, hc, raise, err_bind]
+
+/-- header loop (`if/elif` chain on `words[0]`, `break` on `atoms` once a cell was read, `else: raise`) = `pdffitHeader` -/
+theorem pdffitHeader_eq (ls : List Line) (st : PState) (n : Nat) :
+    pdffit_parseLines_for1 ls st n = (pdffitHeader ls st >>= fun p => Except.ok (p.1, n, p.2)) := by
+  induction ls generalizing st with
+  | nil => simp [pdffit_parseLines_for1, pdffitHeader, raise, err_bind]
+  | cons l rest ih =>
+    unfold pdffit_parseLines_for1 pdffitHeader
+    cases hw : l.words with
+    | nil => simp [ih, pure_eq, ok_bind]
+    | cons w0 ws =>
+      cases hh : w0.hash
+      · simp only [idx, hh, pure_eq]
+        cases hk : w0.kw <;>
+          simp [hk, hh, idx, pdffit_parse_shape_eq, ih, ok_bind, raise, err_bind, floatAt, List.drop_take]
+        case scale => cases ws[0]? <;> simp [pure_eq, ok_bind, err_bind]
+        case sharp =>
+          cases floats l.cwords.tail with
+          | error k => simp [err_bind]
+          | ok u =>
+            simp only [ok_bind]
+            generalize l.cwords.length - 1 = L
+            rcases L with _ | _ | _ | _ | L <;> simp [olIdx, raise, err_bind, ok_bind, pure_eq]
+            have h3 : ¬ (L + 1 + 1 + 1 + 1 < 3) := by omega
+            simp [h3]
+        case format =>
+          cases ws[0]? with
+          | none => simp [err_bind]
+          | some x => by_cases h : x.kw = .pdffit <;> simp [h, ok_bind, err_bind]
+        case atoms => cases hc : st.cellRead <;> simp [ok_bind]
+      · simp [idx, hh, ih, pure_eq, ok_bind]
+
+/-- atom loop (six lines per atom, five of them fetched with `next(ilines)`) = `pdffitAtoms`, for every fuel -/
+theorem pdffitAtoms_eq (fuel : Nat) (ls : List Line) (st : PState) (n : Nat) :
+    pdffit_parseLines_for2 fuel ls st n = (pdffitAtoms fuel ls n >>= fun n' => Except.ok (st, n')) := by
+  induction fuel generalizing ls n with
+  | zero => simp [pdffit_parseLines_for2, pdffitAtoms, pure_eq, ok_bind]
+  | succ f ih =>
+    cases ls with
+    | nil => simp [pdffit_parseLines_for2, pdffitAtoms, pure_eq, ok_bind]
+    | cons l1 rest =>
+      unfold pdffit_parseLines_for2 pdffitAtoms
+      simp only [floatAt, ih, List.drop_take, List.drop_zero]
+      cases h0 : idx l1.words 0 with
+      | error k => simp [err_bind]
+      | ok t => simp [ok_bind, bind_assoc]
+
+/-- the body of the `try` -/
+theorem pdffitBody_eq (d : PdffitDoc) : pdffitBody Gen.cfg_pdffit d = pdffit_parseLines_try1 d := by
+  unfold pdffitBody pdffit_parseLines_try1
+  simp only [pdffitHeader_eq, pdffitAtoms_eq, pure_eq]
+  have hr : Gen.cfg_pdffit.reduceInit = true := rfl
+  rw [hr]
+  cases hx : pdffitHeader (stripTrailing Line.blank d.lines) { } with
+  | error k => simp [err_bind]
+  | ok p =>
+    obtain ⟨st, rest⟩ := p
+    simp only [ok_bind]
+    cases hc : st.cellRead
+    · simp [raise, err_bind]
+    · simp only [Bool.not_true, Bool.false_eq_true, if_false, not_true_eq_false]
+      cases hp : pyProduct true st.ncell with
+      | error k => simp [err_bind]
+      | ok e =>
+        simp only [ok_bind]
+        cases ha : pdffitAtoms (rest.length + 1) rest 0 with
+        | error k => simp [err_bind]
+        | ok n =>
+          simp only [ok_bind]
+          by_cases h1 : (n : Int) ≠ e
+          · simp [h1, raise, err_bind]
+          · by_cases h2 : List.take 3 st.ncell ≠ [1, 1, 1]
+            · simp only [h1, if_false, superCell]
+              cases superStep st.nLatpars st.ncell 0 <;> cases superStep st.nLatpars st.ncell 1 <;>
+                cases superStep st.nLatpars st.ncell 2 <;> cases d.superLat.run <;> simp [err_bind, ok_bind]
+            · simp [h1, h2]
+
+/-- the same in the monad `M` (before `toOutcome`) -/
+theorem pdffitRun_eq (d : PdffitDoc) : tryExcept Gen.cfg_pdffit.H (pdffitBody Gen.cfg_pdffit d) = pdffit_parseLines d := by
+  rw [pdffitBody_eq, pdffit_handler_eq]
+  unfold pdffit_parseLines
+  cases tryExcept pdffit_parseLines_try1_handler (pdffit_parseLines_try1 d) <;> simp [err_bind, ok_bind, pure_eq]
+
+/-- **the tie for PDFfit** -/
+theorem parsePdffit_eq (d : PdffitDoc) : parsePdffit Gen.cfg_pdffit d = toOutcome (pdffit_parseLines d) := by
+  unfold parsePdffit; rw [pdffitRun_eq]
+
+/-! the fuel of the atom loop (`len(remaining lines) + 1`, the translator's rendering of a `for` whose body calls `next`)
+is never exhausted -/
+
+/-- the fuel is never exhausted: with more fuel than remaining lines one more unit changes nothing -/
+theorem pdffitAtoms_fuel (fuel : Nat) (ls : List Line) (n : Nat) (h : ls.length < fuel) :
+    pdffitAtoms fuel ls n = pdffitAtoms (fuel + 1) ls n := by
+  induction fuel generalizing ls n with
+  | zero => omega
+  | succ f ih =>
+    cases ls with
+    | nil => simp [pdffitAtoms]
+    | cons l1 rest =>
+      rcases rest with _ | ⟨l2, _ | ⟨l3, _ | ⟨l4, _ | ⟨l5, _ | ⟨l6, rest'⟩⟩⟩⟩⟩
+      case cons.cons.cons.cons.cons.cons =>
+        have hi := ih rest' (n + 1) (by simp at h; omega)
+        unfold pdffitAtoms
+        simp only [nextLine, pure_eq, ok_bind]
+        rw [hi]
+      all_goals
+        unfold pdffitAtoms
+        simp [nextLine, raise, pure_eq, ok_bind, err_bind]
+
+/-- any fuel above the number of remaining lines gives the run with the fuel the parser model uses -/
+theorem pdffitAtoms_fuel_ge (ls : List Line) (n k : Nat) :
+    pdffitAtoms (ls.length + 1 + k) ls n = pdffitAtoms (ls.length + 1) ls n := by
+  induction k with
+  | zero => rfl
+  | succ k ih => rw [← ih, ← Nat.add_assoc, ← pdffitAtoms_fuel _ ls n (by omega)]
+
+/-- the same for the transliterated loop -/
+theorem pdffit_for2_fuel (ls : List Line) (st : PState) (n k : Nat) :
+    pdffit_parseLines_for2 (ls.length + 1 + k) ls st n = pdffit_parseLines_for2 (ls.length + 1) ls st n := by
+  rw [pdffitAtoms_eq, pdffitAtoms_eq, pdffitAtoms_fuel_ge]
+
+/-! non-vacuity for PDFfit -/
+
+example : toOutcome (pdffit_parseLines { lines := [
+    { words := [{ kw := .cell }], cwords := [{ kw := .cell }] },
+    { words := [{ kw := .ncell }, { int := some 1 }, { int := some 1 }, { int := some 1 }, { int := some 0 }],
+      cwords := [{ kw := .ncell }, { int := some 1 }, { int := some 1 }, { int := some 1 }, { int := some 0 }] },
+    { words := [{ kw := .atoms }], cwords := [{ kw := .atoms }] }] }) = .ok := by decide
+example : toOutcome (pdffit_parseLines { lines := [
+    { words := [{ kw := .cell }], cwords := [{ kw := .cell }] }] }) = .err .SFE := by decide
+example : toOutcome (pdffit_parseLines { lines := [
+    { words := [{ kw := .cell }], cwords := [{ kw := .cell }] },
+    { words := [{ kw := .atoms }], cwords := [{ kw := .atoms }] },
+    { words := [{}, { flt := true }, { flt := true }, { flt := true }, { flt := true }],
+      cwords := [{}, { flt := true }, { flt := true }, { flt := true }, { flt := true }] }] }) = .err .SFE := by decide
+example : toOutcome (pdffit_parseLines { lines := [
+    { words := [{ kw := .sharp }, { flt := true }], cwords := [{ kw := .sharp }, { flt := true }] }] }) = .err .SFE := by decide
 
 end DS.Props.SrcReaders
